@@ -76,6 +76,7 @@ func cmdVerify(args []string) {
 	verbose := fs.Bool("v", false, "verbose")
 	useFindings := fs.Bool("findings", false, "apply known findings regions to callee clauses")
 	show := fs.Bool("show", false, "show path condition and goal of failing obligations")
+	match := fs.String("match", "", "only discharge obligations whose name contains this substring")
 	fs.Parse(args)
 	t0 := time.Now()
 	prog, err := LoadProgram("/repo", "/verif")
@@ -116,6 +117,15 @@ func cmdVerify(args []string) {
 			if r.Aborted != "" {
 				fmt.Printf("%s: ABORTED: %s\n", key, r.Aborted)
 			}
+			if *match != "" {
+				var sel []*Obligation
+				for _, o := range r.Obls {
+					if strings.Contains(o.Name, *match) {
+						sel = append(sel, o)
+					}
+				}
+				r.Obls = sel
+			}
 			Discharge(r.Obls, SolveOpts{Timeout: *timeout, ScratchDir: scratch}, runtime.NumCPU(), true)
 			ok, bad := 0, 0
 			for _, o := range r.Obls {
@@ -125,6 +135,9 @@ func cmdVerify(args []string) {
 						fmt.Printf("       pc: %s\n", o.x.tb.Show(a))
 					}
 					fmt.Printf("       goal: %s\n", o.x.tb.Show(o.Goal))
+					for _, a := range o.Aid {
+						fmt.Printf("       aid: %s\n", o.x.tb.Show(a))
+					}
 					dbgN++; os.WriteFile(fmt.Sprintf("/tmp/dbg_pc_%d.smt2", dbgN), []byte(o.x.tb.Script(o.Asserts, nil, false)), 0644)
 				}
 				if o.Result.Status == "unsat" {
